@@ -157,6 +157,11 @@ CHECKS = {
         text="free_symbols must equal the symbols occurring outside Subs-bound positions of the dumped tree, has_symbol must agree with it for every pool symbol, function_symbols and atoms must return exactly the matching sub-trees, and for generated polynomials in x with symbolic coefficients the coefficients returned by coeff must equal the constructed ones and reconstruct expand(p). Exploration.",
         note="ConditionSet/ImageSet binders are not judged; atoms<Pow/Add/Mul> operate on the materialised get_args view and are not compared with the raw dump. KF-C39-01 (has_symbol sees Subs-bound variables) is a listed known finding.",
         variants=["main"]),
+    "C37": dict(
+        engine="hy", technique="property-based testing: generated expression lists built from shared parts (common sub-sums/sub-products, related powers, functions; symbols x0..x2 and user functions named like cse's markers); oracle = the statement's back-substitution law with the library's xreplace, freshness/ordering invariants of the replacement list, and an independent value comparison threading the replacements through the environment",
+        text="For every generated list: reduced_exprs has the input length; replacement symbols are fresh, distinct Symbols; replacement i mentions only input symbols and earlier replacements; substituting back last-to-first gives expressions eq to the inputs (or eq after expansion when the input held a non-distributed -1*(sum)); and the reduced expressions evaluated with the replacements bound in order have the input's value at two complex points. Exploration.",
+        note="KF-C37-01 (user functions named add/mul/pow are rebuilt as Add/Mul/Pow) is a listed known finding.",
+        variants=["main"]),
 }
 
 NOT_APPLICABLE = {}
